@@ -171,6 +171,62 @@ theorem mem_extraKeys (ctx : Ctx α) (tg : Env α) (k : Name) :
     k ∈ extraKeys ctx tg ↔ k ∈ ctx.gkeys ∧ k ∉ tg.keys := by
   simp [extraKeys, List.mem_filter]
 
+/-! `dump_local_context` -/
+
+theorem Locals.val_filter_other (l : Locals α) (k n : Name) (h : k ≠ n) :
+    Locals.val (l.filter fun q => q.1 ≠ k) n = Locals.val l n := by
+  induction l with
+  | nil => rfl
+  | cons p r ih =>
+    by_cases hp : p.1 = k
+    · have : ¬ p.1 = n := fun e => h (hp.symm.trans e)
+      simp only [List.filter_cons, hp, ne_eq, not_true_eq_false, decide_false, Bool.false_eq_true, if_false]
+      rw [ih]
+      obtain ⟨pk, pv⟩ := p
+      simp only at hp this
+      simp only [Locals.val, this, if_false]
+      cases Locals.val r n <;> rfl
+    · obtain ⟨pk, pv⟩ := p
+      simp only at hp
+      simp only [List.filter_cons, ne_eq, hp, not_false_eq_true, decide_true, if_true, Locals.val, ih]
+
+theorem Locals.val_filter_self (l : Locals α) (n : Name) :
+    Locals.val (l.filter fun q => q.1 ≠ n) n = none := by
+  induction l with
+  | nil => rfl
+  | cons p r ih =>
+    obtain ⟨pk, pv⟩ := p
+    simp only [ne_eq, decide_not] at ih ⊢
+    by_cases hp : pk = n
+    · simp [hp, ih]
+    · simp [hp, Locals.val, ih]
+
+/-- in a list that keeps only the first entry of every name, a name's value is that first entry's -/
+theorem Locals.val_dedupFirst (l : Locals α) (n : Name) :
+    Locals.val (dedupFirst l) n = ((l.find? (·.1 = n)).map (·.2)).getD none := by
+  induction l with
+  | nil => rfl
+  | cons p r ih =>
+    obtain ⟨pk, pv⟩ := p
+    simp only [dedupFirst, Locals.val, List.find?_cons]
+    by_cases hp : pk = n
+    · subst hp
+      rw [Locals.val_filter_self]
+      simp
+    · rw [Locals.val_filter_other _ _ _ hp, ih]
+      simp only [hp, decide_false, if_false]
+      cases ((r.find? (·.1 = n)).map (·.2)).getD none <;> rfl
+
+theorem findDecl_flatten (frames : List (Frame α)) (n : Name) :
+    findDecl frames n = (frames.flatten.find? (·.1 = n)).map (·.2) := by
+  induction frames with
+  | nil => rfl
+  | cons f r ih =>
+    simp only [findDecl, List.flatten_cons, List.find?_append]
+    cases hf : f.find? (·.1 = n) with
+    | none => simp [ih]
+    | some p => obtain ⟨pk, pv⟩ := p; simp
+
 /-- induction from the end of a list -/
 theorem snoc_induction {β : Type} {P : List β → Prop} (nil : P []) (snoc : ∀ l a, P l → P (l ++ [a])) :
     ∀ l, P l := by
